@@ -98,7 +98,14 @@ func c01whole(name string, t reflect.Type, depth int) reflect.Value {
 		m := reflect.MakeMap(t)
 		for i := 0; i < n; i++ {
 			k := reflect.New(t.Key()).Elem()
-			k.SetString("k" + strconv.Itoa(i))
+			if t.Key().Kind() == reflect.String {
+				k.SetString("k" + strconv.Itoa(i))
+			} else {
+				k.Set(c01whole(name+"_k"+strconv.Itoa(i), t.Key(), depth+1))
+				if k.Kind() == reflect.Struct && k.NumField() > 0 && k.Field(0).Kind() == reflect.String {
+					k.Field(0).SetString("key" + strconv.Itoa(i)) // concrete, distinct key identity
+				}
+			}
 			m.SetMapIndex(k, c01whole(name+"_v"+strconv.Itoa(i), t.Elem(), depth+1))
 		}
 		return m
@@ -116,7 +123,7 @@ func c01whole(name string, t reflect.Type, depth int) reflect.Value {
 		s := reflect.New(t).Elem()
 		for i := 0; i < t.NumField(); i++ {
 			f := t.Field(i)
-			if f.PkgPath != "" || !(c01isScalar(f.Type) || f.Type.Kind() == reflect.Slice) {
+			if f.PkgPath != "" || !(c01isScalar(f.Type) || f.Type.Kind() == reflect.Slice || (f.Type.Kind() == reflect.Ptr && c01isScalar(f.Type.Elem()))) {
 				continue
 			}
 			s.Field(i).Set(c01whole(name+"_"+f.Name, f.Type, depth+1))
@@ -146,7 +153,7 @@ func c01copy(v reflect.Value) reflect.Value {
 		m := reflect.MakeMap(t)
 		it := v.MapRange()
 		for it.Next() {
-			m.SetMapIndex(it.Key(), c01copy(it.Value()))
+			m.SetMapIndex(c01copy(it.Key()), c01copy(it.Value()))
 		}
 		return m
 	case reflect.Array:
@@ -292,6 +299,21 @@ func c01eq(a, b reflect.Value) bool {
 		eq := true
 		it := a.MapRange()
 		for it.Next() {
+			if t.Key().Kind() == reflect.Struct {
+				// keys holding pointers: match on the concrete first field, then compare deeply
+				found := false
+				jt := b.MapRange()
+				for jt.Next() {
+					if jt.Key().Field(0).String() == it.Key().Field(0).String() {
+						found = true
+						eq = zzverif.And(eq, zzverif.And(c01eq(it.Key(), jt.Key()), c01eq(it.Value(), jt.Value())))
+					}
+				}
+				if !found {
+					return false
+				}
+				continue
+			}
 			bv := b.MapIndex(it.Key())
 			if !bv.IsValid() {
 				return false
@@ -326,6 +348,7 @@ func c01refs(v reflect.Value, out map[uintptr]bool) {
 			out[v.Pointer()] = true
 			it := v.MapRange()
 			for it.Next() {
+				c01refs(it.Key(), out)
 				c01refs(it.Value(), out)
 			}
 		}
